@@ -14,7 +14,7 @@ type MucPresence struct {
 	PresExtension
 	XMLName  xml.Name `xml:"http://jabber.org/protocol/muc x"`
 	Password string   `xml:"password,omitempty"`
-	History  History  `xml:"history,omitempty"`
+	History  History  `xml:"http://jabber.org/protocol/muc history,omitempty"`
 }
 
 const timeLayout = "2006-01-02T15:04:05Z"
@@ -47,6 +47,10 @@ func (h *History) UnmarshalXML(d *xml.Decoder, start xml.StartElement) error {
 
 	// Extract attributes
 	for _, attr := range start.Attr {
+		if attr.Name.Space != "" {
+			// the attributes of <history/> are unqualified
+			continue
+		}
 		switch attr.Name.Local {
 		case "maxchars":
 			v, err := strconv.Atoi(attr.Value)
@@ -67,7 +71,8 @@ func (h *History) UnmarshalXML(d *xml.Decoder, start xml.StartElement) error {
 			}
 			h.Seconds = NewNullableInt(v)
 		case "since":
-			t, err := time.Parse(timeLayout, attr.Value)
+			// XEP-0082 DateTime: "Z" or a numeric offset, optional fraction
+			t, err := time.Parse(time.RFC3339, attr.Value)
 			if err != nil {
 				return err
 			}
@@ -119,7 +124,7 @@ func (h History) MarshalXML(e *xml.Encoder, start xml.StartElement) (err error) 
 	if !h.Since.IsZero() {
 		attr := xml.Attr{
 			Name:  xml.Name{Local: "since"},
-			Value: h.Since.Format(timeLayout),
+			Value: h.Since.UTC().Format(timeLayout),
 		}
 		start.Attr = append(start.Attr, attr)
 	}
